@@ -231,8 +231,11 @@ fn gen_case(r: &mut Rng, chains: &[SimChain], thorough: bool) -> Case {
                     headers[i].as_advanced_builder().timestamp((headers[i].timestamp() + 1).pack()).build()
                 };
                 let after = r.chance(2, 3);
-                headers.insert(if after { i + 1 } else { i }, twin);
-                label = format!("header-twin-{}", if after { "after" } else { "before" });
+                // a neighbour of the genuine header, or anywhere in the list (the library sorts
+                // before it drops all leaves of a position but one)
+                let at = if r.chance(1, 2) { if after { i + 1 } else { i } } else { r.below(headers.len() as u64 + 1) as usize };
+                headers.insert(at, twin);
+                label = format!("header-twin-{}", if at == i + 1 { "after" } else if at == i { "before" } else { "apart" });
             }
         }
         14 => {
